@@ -6,6 +6,7 @@ import ast
 from .core import src, parent, AnalysisError
 
 VIEW_METHODS = {"reshape", "transpose", "view", "ravel", "squeeze"}
+MUTATING_METHODS = {"pop", "append", "extend", "insert", "remove", "sort", "reverse", "clear", "popitem", "update", "setdefault", "fill"}
 COPY_CALLS = {"copy", "flatten", "astype", "array", "zeros_like", "empty_like"}
 
 
@@ -63,6 +64,14 @@ def shared_state_mutations(fn: ast.FunctionDef, shared_pred):
                 if rt is not None:
                     out.append((st, f"in-place update of `{src(base)}`, a view of the stored `{rt}`"))
             for c in [n for n in ast.walk(st) if isinstance(n, ast.Call)]:
+                if isinstance(c.func, ast.Attribute) and c.func.attr in MUTATING_METHODS:
+                    rt = root_of(c.func.value)
+                    if rt is not None and not (isinstance(st, ast.For) and c is not getattr(st, "iter", None)) or \
+                            (isinstance(c.func, ast.Attribute) and c.func.attr in MUTATING_METHODS and root_of(c.func.value) is not None):
+                        rt = root_of(c.func.value)
+                        if rt is not None and (c, f"`.{c.func.attr}()` modifies `{src(c.func.value)}`, which is the stored `{rt}`") not in out \
+                                and not any(x[0] is c for x in out):
+                            out.append((c, f"`.{c.func.attr}()` modifies `{src(c.func.value)}`, which is the stored `{rt}`"))
                 flags = [k for k in c.keywords if k.arg and k.arg.startswith("overwrite")
                          and isinstance(k.value, ast.Constant) and k.value.value]
                 if flags:
